@@ -42,6 +42,21 @@ STD_RULES = {
                  [r'\bstd::make_signed_t<\s*(?:std::)?uint64_t\s*>', 'int64_t', 0], [r'\bstd::make_signed_t<\s*(?:std::)?size_t\s*>', 'ptrdiff_t', 0],
                  [r'\bstd::(size_t|ptrdiff_t|u?int(?:8|16|32|64)_t|uintptr_t|intptr_t)\b', r'\1', 0],
                  [r'\busing\s+(\w+)\s*=\s*([^;{}()]+);', r'typedef \2 \1;', 0]],
+    # Optional, applied AFTER the recipe's own rules ('std_after': ['elemalgos'] on a piece or on the whole recipe): std::
+    # algorithms / igris helpers that the recipe has no rule for - i.e. calls a CHANGED function newly makes - go to the plain
+    # stand-ins of spec/elem_algos.h, so that the extraction still yields C and the bounded fallback can decide.  All lenient.
+    'elemalgos': [
+        [r'([A-Za-z_][\w.>\-\[\]]*)\s*=\s*std::exchange\(([^,;]+),\s*([^;]+)\);', r'{ __typeof__(\2) vc_ex = \2; \2 = \3; \1 = vc_ex; }', 0],
+        [r'\bstd::move\(([^;,()]*(?:\([^()]*\))?[^;,()]*), ([^;,()]*(?:\([^()]*\))?[^;,()]*), ([^;,()]*(?:\([^()]*\))?[^;,()]*)\)',
+         r'vcstd_move_range(\1, \2, \3)', 0],
+        [r'\b(?:std|igris)::(distance|next|prev|copy|copy_n|copy_backward|move_backward|fill|fill_n|equal|uninitialized_copy|uninitialized_copy_n|'
+         r'uninitialized_move|uninitialized_fill|uninitialized_fill_n|uninitialized_default_construct|destroy|destroy_n|destroy_at|min|max)\s*(?:<[^<>()]*>)?\(',
+         r'vcstd_\1(', 0],
+        [r'\bigris::(destructor|array_destructor)\(', r'vcigris_\1(', 0],
+        # a one-element parameter pack forwarded to T's constructor (recipes give such functions the parameter `int args`)
+        [r'\bigris::constructor\(([^;,]*), std::forward<Args>\(args\)\.\.\.\);', r'ELEM_construct_value(\1, args);', 0],
+        [r'\bnew \(([^()]*(?:\([^()]*\))?[^()]*)\) ELEM\(std::forward<Args>\(args\)\.\.\.\);', r'ELEM_construct_value(\1, args);', 0],
+    ],
 }
 
 
@@ -260,6 +275,17 @@ def _op_func(repo, p, struct_members):
     try:
         npos, popen, bo, bc = inj.find_function_ex(region, name, p.get('occurrence', 0))
     except inj.InjectError as e:
+        # R11: a destructor declared `~X() = default;` (or not declared at all) has no body of its own: what runs is the implicit
+        # destruction of the members, in reverse declaration order ([class.dtor]); the recipe names their destructors ('member_dtors')
+        if name.startswith('~') and p.get('member_dtors') is not None and \
+                (re.search(r'%s\s*\(\s*\)\s*(?:noexcept\s*)?=\s*default\s*;' % re.escape(name), inj._mask(region)) or
+                 not re.search(re.escape(name) + r'\s*\(', inj._mask(region))):
+            calls = ' '.join('%s(&self->%s);' % (fn, mem) for mem, fn in reversed(p['member_dtors']))
+            cname = p.get('as', name.replace('::', '_'))
+            text = '/* cxx2c: %s from %s: defaulted destructor (R11: implicit member destruction only) */\nvoid %s(struct %s *self)\n{\n    %s\n}\n' % (
+                name, p['file'], cname, p.get('self_as', p.get('self')), calls)
+            return text, [{'rule': 'func', 'what': '%s <- %s (= default) as %s' % (name, p['file'], cname),
+                           'rules': [{'rule': 'R11 defaulted destructor', 'fired': len(p['member_dtors'])}]}]
         raise ExtractError(str(e))
     bo += base
     bc += base
@@ -349,6 +375,8 @@ def _op_func(repo, p, struct_members):
     for s in p.get('std', ['casts', 'nullptr', 'labels', 'stdtypes']):
         rules += STD_RULES[s]
     rules += p.get('rewrite', [])
+    for s in p.get('std_after', []):
+        rules += STD_RULES[s]
     body, f2 = _apply_rules(body, rules, name)
     fired += f2
     if p.get('sig_rewrite'):
@@ -360,6 +388,12 @@ def _op_func(repo, p, struct_members):
     if is_ctor or p.get('ret'):
         ret = p.get('ret', 'void')
     cname = p.get('as', name.replace('::', '_'))
+    if name.startswith('~') and p.get('member_dtors'):
+        # R11: after the body of a destructor the members are destroyed, in reverse declaration order ([class.dtor])
+        calls = ' '.join('%s(&self->%s);' % (fn, mem) for mem, fn in reversed(p['member_dtors']))
+        k = body.rstrip().rfind('}')
+        body = body[:k] + '    /* cxx2c R11: implicit member destruction */ ' + calls + '\n' + body[k:]
+        fired.append({'rule': 'R11 implicit member destruction', 'fired': len(p['member_dtors'])})
     text = '/* cxx2c: %s from %s */\n%s %s(%s)\n%s\n' % (name, p['file'], ret, cname, params or 'void', body)
     line0 = src.count('\n', 0, ss) + 1
     line1 = src.count('\n', 0, bc) + 1
@@ -395,6 +429,13 @@ def extract(repo, overlay, spec):
             chunks.append(t)
             report += r
         elif op == 'func':
+            if spec.get('std_after') and 'std_after' not in p:
+                p = dict(p, std_after=spec['std_after'])
+            # class-wide method table (recipe key 'methods_all': {class: {method: c_name}}): a changed member function may
+            # call a sibling it did not call before; the piece's own table takes precedence
+            ma = (spec.get('methods_all') or {}).get(p.get('self'))
+            if ma:
+                p = dict(p, methods=dict(ma, **(p.get('methods') or {})))
             t, r = _op_func(repo, p, struct_members)
             chunks.append(t)
             report += r
